@@ -23,10 +23,20 @@ fn spawn_worker() -> (mpsc::Sender<Value>, mpsc::Receiver<Value>) {
         .stack_size(STACK)
         .spawn(move || {
             for c in rx_cmd {
+                // a quarter of the commands run with freshly allocated copies of the format (see vocab::set_owned)
+                let owned = c.get("owned").and_then(|x| x.as_bool()).unwrap_or(false);
+                if owned {
+                    if let Some(f) = c.get("fmt").and_then(|x| x.as_str()) {
+                        vocab::set_owned(Some(f));
+                    }
+                }
                 let o = match std::panic::catch_unwind(std::panic::AssertUnwindSafe(|| exec::run(&c))) {
                     Ok(o) => o,
                     Err(_) => json!({"harness_panic": true}),
                 };
+                if owned {
+                    vocab::set_owned(None);
+                }
                 if tx_obs.send(o).is_err() {
                     break;
                 }
@@ -53,7 +63,10 @@ fn exec_file(inp: &str, out: &str, threads: usize) {
             let (mut tx, mut rx) = spawn_worker();
             let mut i = k;
             while i < lines.len() {
-                let c: Value = serde_json::from_str(&lines[i]).unwrap_or_else(|e| panic!("bad command line {}: {e}", i + 1));
+                let mut c: Value = serde_json::from_str(&lines[i]).unwrap_or_else(|e| panic!("bad command line {}: {e}", i + 1));
+                if i % 4 == 3 && c.get("fmt").is_some() && c.get("owned").is_none() {
+                    c["owned"] = json!(true);
+                }
                 let t0 = std::time::Instant::now();
                 tx.send(c.clone()).expect("send");
                 let o = match rx.recv_timeout(WATCHDOG) {
